@@ -6,3 +6,5 @@ import RP
 #print axioms RP.snapshot_coverage
 #print axioms RP.state_machine_safety_snap
 #print axioms RP.fsm_safety
+#print axioms RP.ack_exact
+#print axioms RP.ack_exact_forever
